@@ -883,3 +883,75 @@ PROPS["C08"] = Prop(
     "outboard creation entry points side by side. Each implementation is also compared with its own separately transcribed model. "
     "non-trivial = non-empty output / stream / more than one chunk",
     assumptions=DEC_ASSUME)
+
+
+# ------------------------------------------------------------------ C07 histories
+F_HISTORY = Family("history", "Run.RunProto", "run_history", "holds_history", lambda a, o: a[6] >= 2)
+F_HISTORY.shard_cases = 24
+
+
+def hist_alphabet(size, bs, rng, k):
+    """(query, cutkind, cutparam) triples: complete, cut at / inside item boundaries, failing writes / saves"""
+    n = nchunks(size)
+    qs = std_queries(n, rng, 2)
+    qs = [q for q in qs if q]
+    ops = []
+    for q in qs:
+        lay = honest_layout(size, bs, q)
+        L = sum(x[2] for x in lay)
+        ops.append((q, 0, 0))
+        off = 0
+        nl = sum(1 for x in lay if x[0] == 1)
+        npar = len(lay) - nl
+        for (kd, _, nb) in lay:
+            ops.append((q, 1, off))
+            ops.append((q, 1, off + nb // 2))
+            off += nb
+        for i in range(nl):
+            ops.append((q, 2, i))
+        for i in range(npar):
+            ops.append((q, 3, i))
+    rng.shuffle(ops)
+    # always keep a few completing ops so that histories converge
+    comp = [(q, 0, 0) for q in ([0], [0, max(1, n // 2)], [n // 2])]
+    return comp + ops[: max(0, k - len(comp))]
+
+
+def enc_op(op):
+    q, ck, cp = op
+    return [len(q)] + list(q) + [ck, cp]
+
+
+def gen_c07(tier, rng):
+    cases = []
+    sizes = [1025, 3 * 1024 + 5, 5 * 1024 + 7, 7 * 1024] if tier == "quick" else [1025, 2048, 3 * 1024 + 5, 4 * 1024 + 1, 5 * 1024 + 7, 7 * 1024, 11 * 1024 + 3, 14 * 1024]
+    depth = 2 if tier == "quick" else 3
+    for size in sizes:
+        for bs in range(0, 3):
+            combos = [(s, d) for s in range(0, 4) for d in (2, 3)]
+            for (sink, driver) in (rng.sample(combos, 2) if tier == "quick" else combos):
+                alpha = hist_alphabet(size, bs, rng, 8 if tier == "quick" else 7)
+                sd = seed(rng)
+                import itertools
+                for seq_ in itertools.product(alpha, repeat=depth):
+                    ops = []
+                    for op in seq_:
+                        ops += enc_op(op)
+                    cases.append(("history", [0, sd, size, bs, sink, driver, depth] + ops))
+                big = hist_alphabet(size, bs, rng, 40)
+                for _ in range(6 if tier == "quick" else 40):
+                    ln = rng.randrange(3, 9 if tier == "quick" else 13)
+                    ops = []
+                    for _ in range(ln):
+                        ops += enc_op(rng.choice(big))
+                    cases.append(("history", [0, sd, size, bs, sink, driver, ln] + ops))
+    return cases
+
+
+PROPS["C07"] = Prop(
+    [F_HISTORY], gen_c07,
+    "history: blobs of 2..7 (quick) / 2..14 (thorough) chunks without zero chunks x bs 0..2 x sinks {pre/post order x io/memory} x {sync, fsm} "
+    "decode_ranges; alphabet = queries (all, halves, single chunks, sub-group, past-the-end, random) x {complete, stream cut at every item boundary and "
+    "inside every item, k-th target write fails, k-th save fails}; ALL sequences of depth 2 (quick) / 3 (thorough) over an 8 / 7 letter alphabet per "
+    "configuration plus random sequences of length up to 8 / 12. After every step: target bytes, outboard bytes, valid_ranges. non-trivial = at least two steps",
+    assumptions=DEC_ASSUME + ["blobs contain no all-zero chunk (otherwise 'exactly the delivered groups' is false of any implementation)"])
